@@ -228,6 +228,7 @@ def run_check(prop: str, tier: str, seed: int) -> int:
     variant = "plain"
     if tier == "thorough" and getattr(mod, "ASAN_THOROUGH", False) and os.environ.get("VERIF_ASAN", "1") != "0":
         variant = "asan"
+    variant = os.environ.get("VERIF_VARIANT", variant)
     try:
         info = bld.ensure(variant, verbose=True)
     except SystemExit as e:
@@ -332,7 +333,7 @@ def run_check(prop: str, tier: str, seed: int) -> int:
             "samples": samples, "labels": dict(sorted(labels.items())), "shards": n_shards,
             "shard_seeds": [s["seed"] for s in shards], "skipped_for_budget": sum(s["skipped_budget"] for s in shards),
             "corpus_replayed": len(corpus_results), "known_finding_hits": known_hits, "programs_refused_by_tree": rejected,
-            "tree_fingerprint": info.get("fingerprint"), "recompiled_tus": info.get("recompiled", []),
+            "tree_fingerprint": info.get("fingerprint"), "build_variant": variant, "recompiled_tus": info.get("recompiled", []),
             "worker_crashes": sum(s["worker_crashes"] for s in shards),
         },
         "assumptions": [
